@@ -459,7 +459,8 @@ def untyped_var():
     """A Var whose type is unknown (type inference gave nothing)."""
     with warnings.catch_warnings():
         warnings.simplefilter("ignore")
-        return identity_node(const_var(), None).outputs.output
+        with backend_setting("none"):
+            return identity_node(const_var(), None).outputs.output
 
 
 def compare_outcome(model: dict, real: dict) -> Optional[str]:
